@@ -27,6 +27,13 @@ func VerifC19ProxySignOut() {
 		zz.Assume(verifCookieValueOK(v))
 		req.Header.Set("Cookie", zz.CookieLine(&http.Cookie{Name: verifCookieName, Value: v}))
 	}
+	// history: an earlier visitor may have signed out through the same proxy on another host
+	if zz.NondetBool("earlier.signout") {
+		h0 := zz.NondetString("earlier.host")
+		zz.Assume(zz.And(h0 != "", !strings.Contains(h0, ":"), !strings.Contains(h0, "/"), !strings.Contains(h0, "?"), !strings.Contains(h0, "#"), !strings.Contains(h0, "@"), !strings.Contains(h0, " "), !strings.Contains(h0, "%"), !strings.HasPrefix(h0, ".")))
+		env.P.SignOut(zz.NewRecorder(), zz.NewRequest("GET", h0, "/oauth2/sign_out", ""))
+		zz.Reach("after-an-earlier-sign-out")
+	}
 	t0 := time.Now()
 	rec := zz.NewRecorder()
 	env.P.SignOut(rec, req)
